@@ -66,6 +66,7 @@ RefItem  == [t |-> "ref", n |-> 0]
 DoneI(rc) == [t |-> "done", n |-> rc]
 SilI     == [t |-> "sil", n |-> 0]
 DisI     == [t |-> "dis", n |-> 0]
+PageI    == [t |-> "page", n |-> 0]      \* end of a page: a SearchResultDone whose paged-results control carries a cookie
 Items(srv) == CASE srv = "k1"  -> <<Ent(1), DoneI(0)>>
                 [] srv = "k2"  -> <<Ent(1), Ent(2), DoneI(0)>>
                 [] srv = "ref" -> <<Ent(1), RefItem, Ent(2), DoneI(0)>>
@@ -73,9 +74,13 @@ Items(srv) == CASE srv = "k1"  -> <<Ent(1), DoneI(0)>>
                 [] srv = "k1d" -> <<Ent(1), DisI>>
                 [] srv = "sil" -> <<SilI>>
                 [] srv = "dis" -> <<DisI>>
+                [] srv = "p2"  -> <<Ent(1), DoneI(0)>>          \* a paging server asked without the control: everything at once
                 [] OTHER       -> <<DoneI(Rc(srv))>>
+(* "p2" asked through the PagedResults adapter (ad = 2): two pages of one entry; the adapter reads the end of page one, *)
+(* sends the search again with the cookie (the next message ID) and goes on with the entries of page two               *)
+PagedItems == <<Ent(1), PageI, Ent(2), DoneI(0)>>
 SrvSingle == {"ok", "e6", "e10", "e32", "sil", "dis"}
-SrvSearch == {"ok", "k1", "k2", "ref", "e32", "e10", "sil", "dis", "k1s", "k1d"}
+SrvSearch == {"ok", "k1", "k2", "ref", "e32", "e10", "sil", "dis", "k1s", "k1d", "p2"}
 
 -----------------------------------------------------------------------------
 (* Handle state *)
@@ -92,20 +97,21 @@ SelectEnts(items) == LET F[i \in 0..Len(items)] ==
 CountRefs(items) == Cardinality({i \in 1..Len(items) : items[i].t = "ref"})
 
 (* ---- EntryStream / SearchStream ---- *)
-SS0 == [pos |-> 1, sst |-> "Active", res |-> -1, acc |-> 0, sawdis |-> FALSE, hung |-> FALSE]
+SS0 == [pos |-> 1, sst |-> "Active", res |-> -1, acc |-> 0, sawdis |-> FALSE, hung |-> FALSE, pages |-> 0]
 (* one stream call; ctx = [items, eo, tmo, id] *)
 SubStep(ss, sub, ctx) ==
-  CASE sub = "lastid" -> [ss |-> ss, ret |-> RVal(ctx.id)]
+  CASE sub = "lastid" -> [ss |-> ss, ret |-> RVal(ctx.id + ss.pages)]      \* the ID of the search in progress: the latest page's
     [] sub = "result" ->
          [ss  |-> [ss EXCEPT !.sst = "Closed"],
           ret |-> IF ss.sst = "Done"
-                  THEN RRes(ss.res, ctx.id, <<>>, RefsOf(ss.res) + ss.acc, -1)
+                  THEN RRes(ss.res, ctx.id + ss.pages, <<>>, RefsOf(ss.res) + ss.acc, -1)
                   ELSE RRes(88, -1, <<>>, ss.acc, -1)]
     [] sub = "next" ->
          IF ss.sst # "Active" THEN [ss |-> ss, ret |-> RNone]
          ELSE LET skip == ctx.eo = 1 /\ ctx.items[ss.pos].t = "ref"      \* EntriesOnly swallows a referral
-                  p    == IF skip THEN ss.pos + 1 ELSE ss.pos
-                  s1   == [ss EXCEPT !.acc = IF skip THEN @ + 1 ELSE @]
+                  turn == ctx.items[ss.pos].t = "page"                    \* PagedResults asks for the next page
+                  p    == IF skip \/ turn THEN ss.pos + 1 ELSE ss.pos
+                  s1   == [ss EXCEPT !.acc = IF skip THEN @ + 1 ELSE @, !.pages = IF turn THEN @ + 1 ELSE @]
                   it   == ctx.items[p]
               IN CASE it.t = "ent"  -> [ss |-> [s1 EXCEPT !.pos = p + 1], ret |-> RSome(it.n)]
                    [] it.t = "ref"  -> [ss |-> [s1 EXCEPT !.pos = p + 1], ret |-> RSome(0)]
@@ -154,7 +160,11 @@ Step(h, st) ==
   LET id   == h.mid + 1
       srch == st.call \in SearchOps
       h2   == [h1 EXCEPT !.mid = id, !.lastany = id, !.lastid = IF srch THEN @ ELSE id]
-      req  == [op |-> WireOp(st.call), id |-> id, arg |-> WireArg(h, st), ctl |-> pc1, so |-> IF srch THEN ps1 ELSE 0]
+      paged == st.call = "streaming_search_with" /\ st.ad = 2
+      \* pg: 0 no paged-results control, 1 the control with an empty cookie, 2 with the server's cookie; ctl abstracts the
+      \* other controls (the adapter's list is never an empty Controls element: token 3 becomes "none")
+      req  == [op |-> WireOp(st.call), id |-> id, arg |-> WireArg(h, st), ctl |-> IF paged /\ pc1 = 3 THEN 0 ELSE pc1,
+               so |-> IF srch THEN ps1 ELSE 0, pg |-> IF paged THEN 1 ELSE 0]
   IN
   IF h.conn # "up" THEN
       [h |-> h2, ev |-> Ev(<<>>, RErr("conn", IF h.unst THEN "" ELSE "OpSend"), <<>>, h2, h.unst)]
@@ -182,15 +192,17 @@ Step(h, st) ==
            [] OTHER ->
                 LET h3 == [h2 EXCEPT !.conn = "down"] IN [h |-> h3, ev |-> Ev(<<req>>, RErr("eos", "EndOfStream"), <<>>, h3, FALSE)]
   ELSE  \* streaming_search / streaming_search_with: open, then the calls in st.sub on the stream, then the stream is dropped
-      LET items == Items(st.srv)
+      LET items == IF paged /\ st.srv = "p2" THEN PagedItems ELSE Items(st.srv)
           ctx   == [items |-> items, eo |-> st.ad, tmo |-> pt1, id |-> id]
           r     == RunSubs(st.sub, 1, SS0, <<>>, ctx)
           unread == items[Len(items)].t = "dis" /\ ~r.ss.sawdis
-          h3    == IF r.ss.hung THEN [h2 EXCEPT !.conn = "hung"]
-                   ELSE IF r.ss.sawdis THEN [h2 EXCEPT !.conn = "down"]
-                   ELSE IF unread THEN [h2 EXCEPT !.conn = "down", !.unst = TRUE]
-                   ELSE h2
-      IN [h |-> h3, ev |-> Ev(<<req>>, RPlain, r.rets, h3, FALSE)]
+          hp    == [h2 EXCEPT !.mid = @ + r.ss.pages]                     \* every page is a search of its own, with its own ID
+          h3    == IF r.ss.hung THEN [hp EXCEPT !.conn = "hung"]
+                   ELSE IF r.ss.sawdis THEN [hp EXCEPT !.conn = "down"]
+                   ELSE IF unread THEN [hp EXCEPT !.conn = "down", !.unst = TRUE]
+                   ELSE hp
+          reqs  == <<req>> \o [k \in 1..r.ss.pages |-> [req EXCEPT !.id = id + k, !.pg = 2]]
+      IN [h |-> h3, ev |-> Ev(reqs, RPlain, r.rets, h3, FALSE)]
 
 (* The whole script: sequence of events; stops after a hang *)
 RECURSIVE RunFrom(_, _, _, _)
@@ -220,7 +232,7 @@ InForce(i, f) == LET S == {k \in (PrevOp(i)+1)..i : script[k][f] # 0}
 ModsExactlyNext ==
   \A i \in 1..Len(evs) :
      /\ \A q \in 1..Len(evs[i].reqs) :
-          /\ evs[i].reqs[q].ctl = InForce(i, "ctl")
+          /\ evs[i].reqs[q].ctl = IF evs[i].reqs[q].pg # 0 /\ InForce(i, "ctl") = 3 THEN 0 ELSE InForce(i, "ctl")
           /\ evs[i].reqs[q].so = IF script[i].call \in SearchOps THEN InForce(i, "so") ELSE 0
      /\ (evs[i].ret.out = "timeout" \/ \E s \in 1..Len(evs[i].subs) : evs[i].subs[s].out = "timeout") => InForce(i, "tmo") # 0
      /\ (evs[i].ret.out = "hang" \/ \E s \in 1..Len(evs[i].subs) : evs[i].subs[s].out = "hang") => InForce(i, "tmo") = 0
@@ -242,8 +254,14 @@ AllReqs == LET F[i \in 0..Len(evs)] == IF i = 0 THEN <<>> ELSE F[i-1] \o evs[i].
 IdsIncrease == \A k \in 1..Len(AllReqs) : AllReqs[k].id = k
 
 (* a request is produced exactly by operations that are not rejected locally while the connection is up *)
+(* - one request, except that the PagedResults adapter repeats the search, with the server's cookie, once per further page *)
+IsPaged(i) == script[i].call = "streaming_search_with" /\ script[i].ad = 2
 OneRequestPerOp ==
-  \A i \in 1..Len(evs) : Len(evs[i].reqs) <= 1 /\ (evs[i].reqs # <<>> => IsOpStep(i) /\ ~LocalReject(script[i]))
+  \A i \in 1..Len(evs) :
+     /\ Len(evs[i].reqs) <= IF IsPaged(i) THEN 2 ELSE 1
+     /\ evs[i].reqs # <<>> => IsOpStep(i) /\ ~LocalReject(script[i])
+     /\ \A q \in 1..Len(evs[i].reqs) : evs[i].reqs[q].pg = IF IsPaged(i) THEN q ELSE 0
+     /\ Len(evs[i].reqs) = 2 => evs[i].reqs[2] = [evs[i].reqs[1] EXCEPT !.id = @ + 1, !.pg = 2]
 
 TypeOK == /\ Len(evs) <= Len(script)
           /\ \A i \in 1..Len(evs) : evs[i].ret.out \in {"ok", "timeout", "conn", "eos", "local", "hang", "any"}
